@@ -8,7 +8,7 @@ CARD_CHANGING = {"filter", "filter_map", "flat_map", "flatten", "skip", "take", 
 ORDER_CHANGING = {"rev", "sorted", "sorted_by", "sorted_by_key"}
 SINKS = {"collect", "any", "all", "fold", "reduce", "count", "next", "nth", "last", "for_each", "find", "position",
          "sum", "min", "max", "min_by", "max_by", "min_by_key", "max_by_key", "find_map", "try_fold", "unzip",
-         "product", "partition", "is_empty", "len"}
+         "product", "partition", "is_empty", "len", "extend"}
 
 
 def method_name(callee):
